@@ -1,0 +1,23 @@
+//go:build verif
+
+package mutable
+
+import "sync/atomic"
+
+var verifHook atomic.Pointer[func(site string)]
+
+// VerifSetYield installs f (nil removes it) to be called at the entry of
+// CopyOnWriteMap.load and CopyOnWriteMap.copyOnWrite, before any lock is taken.
+func VerifSetYield(f func(site string)) {
+	if f == nil {
+		verifHook.Store(nil)
+		return
+	}
+	verifHook.Store(&f)
+}
+
+func verifYield(site string) {
+	if h := verifHook.Load(); h != nil {
+		(*h)(site)
+	}
+}
